@@ -498,3 +498,231 @@ def pat_text(p: Any) -> str:
     if k == "p_slice":
         return "[" + pat_text(p["elems"]) + "]"
     return f"<{k}>"
+
+
+# ---------------------------------------------------------------------------
+# Pure-function folding over finite domains (helper fns such as
+# map_chip_col_to_display_col, regpair_name, normalize_ext_reg_mode ...)
+
+class _RsReturn(Exception):
+    def __init__(self, v: Any):
+        self.v = v
+
+
+class RsInterp:
+    """Folds a *pure* Rust fn body for concrete arguments: let, if/else, match on
+    literals/ranges/paths/tuples with guards, casts, arithmetic, Some/None, tuples,
+    early return, `matches!`, method calls of the integer API.  Anything else -> NotConst."""
+
+    def __init__(self, prog: RustProgram, file_suffix: str):
+        self.prog = prog
+        self.rel = prog.file_for(file_suffix)
+        self.suffix = file_suffix
+
+    def call(self, qual: str, args: list) -> Any:
+        fn = self.prog.fns.get((self.rel, qual))
+        if fn is None:
+            raise NotConst(f"fn {qual} not found")
+        params = [p for p in fn.params() if p != "self"]
+        if len(params) != len(args):
+            raise NotConst(f"arity mismatch calling {qual}")
+        env = dict(zip(params, args))
+        try:
+            return self.block(fn.body, env)
+        except _RsReturn as r:
+            return r.v
+
+    def block(self, blk: dict, env: dict) -> Any:
+        last = None
+        for st in blk["stmts"]:
+            k = st["k"]
+            if k == "let":
+                v = self.ev(st["init"], env) if st.get("init") is not None else None
+                if not self.bind(st["pat"], v, env):
+                    if st.get("else") is not None:
+                        self.ev(st["else"], env)
+                    raise NotConst("let pattern did not match")
+                last = None
+            elif k == "expr_stmt":
+                v = self.ev(st["e"], env)
+                last = None if st.get("semi") else v
+            elif k == "item_stmt":
+                continue
+            else:
+                raise NotConst(f"stmt {k}")
+        return last
+
+    def bind(self, pat: dict, v: Any, env: dict) -> bool:
+        k = pat.get("k")
+        if k == "p_wild":
+            return True
+        if k == "p_ident":
+            if pat.get("sub") is not None and not self.bind(pat["sub"], v, env):
+                return False
+            env[pat["name"]] = v
+            return True
+        if k == "p_lit":
+            return self.ev(pat["e"], env) == v
+        if k == "p_or":
+            return any(self.bind(c, v, env) for c in pat["cases"])
+        if k == "p_range":
+            lo = self.ev(pat["lo"], env) if pat.get("lo") else None
+            hi = self.ev(pat["hi"], env) if pat.get("hi") else None
+            if lo is not None and v < lo:
+                return False
+            if hi is not None and (v > hi if pat.get("closed") else v >= hi):
+                return False
+            return True
+        if k == "p_path":
+            p = pat["p"]
+            if p == "None":
+                return v is None
+            try:
+                c = RsConstEval(self.prog, self.rel).lookup_const(p)
+                return c == v
+            except NotConst:
+                return v == ("sym", p) or (isinstance(v, tuple) and v and v[0] == "sym" and v[1].split("::")[-1] == p.split("::")[-1])
+        if k == "p_tuple":
+            if not isinstance(v, (list, tuple)) or len(v) != len(pat["elems"]):
+                return False
+            return all(self.bind(p, x, env) for p, x in zip(pat["elems"], v))
+        if k == "p_tstruct":
+            if pat["p"] == "Some":
+                if v is None:
+                    return False
+                inner = v[1] if isinstance(v, tuple) and v and v[0] == "some" else v
+                return self.bind(pat["elems"][0], inner, env)
+            if isinstance(v, tuple) and v and v[0] == "ctor" and v[1].split("::")[-1] == pat["p"].split("::")[-1]:
+                return all(self.bind(p, x, env) for p, x in zip(pat["elems"], v[2]))
+            return False
+        raise NotConst(f"pattern {k}")
+
+    def ev(self, e: dict, env: dict) -> Any:
+        k = e.get("k")
+        if k == "path" and e["p"] in env:
+            return env[e["p"]]
+        if k in ("lit",):
+            return RsConstEval(self.prog, self.rel).eval(e)
+        if k == "path":
+            return RsConstEval(self.prog, self.rel, env).eval(e)
+        if k == "paren":
+            return self.ev(e["e"], env)
+        if k == "block":
+            return self.block(e, env)
+        if k == "if":
+            c = e["cond"]
+            if c.get("k") == "let_cond":
+                env2 = dict(env)
+                if self.bind(c["pat"], self.ev(c["e"], env), env2):
+                    return self.block(e["then"], env2)
+                return self.ev(e["else"], env) if e.get("else") else None
+            if self.ev(c, env):
+                return self.block(e["then"], env)
+            return self.ev(e["else"], env) if e.get("else") else None
+        if k == "match":
+            v = self.ev(e["e"], env)
+            for arm in e["arms"]:
+                env2 = dict(env)
+                if self.bind(arm["pat"], v, env2):
+                    if arm.get("guard") is not None and not self.ev(arm["guard"], env2):
+                        continue
+                    return self.ev(arm["body"], env2)
+            raise NotConst("non-exhaustive match while folding")
+        if k == "return":
+            raise _RsReturn(self.ev(e["e"], env) if e.get("e") else None)
+        if k == "matches":
+            env2 = dict(env)
+            ok = self.bind(e["pat"], self.ev(e["e"], env), env2)
+            return bool(ok and (e.get("guard") is None or self.ev(e["guard"], env2)))
+        if k == "unary":
+            v = self.ev(e["e"], env)
+            return {"-": lambda: -v, "!": lambda: (not v) if isinstance(v, bool) else ~v, "*": lambda: v}[e["op"]]()
+        if k == "binary":
+            op = e["op"]
+            a = self.ev(e["l"], env)
+            if op == "&&":
+                return bool(a) and bool(self.ev(e["r"], env))
+            if op == "||":
+                return bool(a) or bool(self.ev(e["r"], env))
+            b = self.ev(e["r"], env)
+            return {"+": lambda: a + b, "-": lambda: a - b, "*": lambda: a * b, "/": lambda: a // b, "%": lambda: a % b,
+                    "&": lambda: a & b, "|": lambda: a | b, "^": lambda: a ^ b, "<<": lambda: a << b, ">>": lambda: a >> b,
+                    "==": lambda: a == b, "!=": lambda: a != b, "<": lambda: a < b, "<=": lambda: a <= b,
+                    ">": lambda: a > b, ">=": lambda: a >= b}[op]()
+        if k == "cast":
+            v = self.ev(e["e"], env)
+            ty = e["ty"].replace(" ", "")
+            if isinstance(v, bool):
+                v = int(v)
+            if isinstance(v, int) and ty in _INT_TYPES:
+                bits = _INT_TYPES[ty]
+                v &= (1 << bits) - 1
+                if ty.startswith("i") and v >> (bits - 1):
+                    v -= 1 << bits
+            return v
+        if k == "tuple":
+            return tuple(self.ev(x, env) for x in e["elems"])
+        if k == "ref":
+            return self.ev(e["e"], env)
+        if k == "call":
+            f = e["f"]
+            if f.get("k") == "path":
+                p = f["p"]
+                args = [self.ev(a, env) for a in e["args"]]
+                if p == "Some":
+                    return ("some", args[0])
+                if p.startswith("Self::") or (self.rel, p) in self.prog.fns:
+                    q = p.replace("Self::", "")
+                    cands = [qq for (r, qq) in self.prog.fns if r == self.rel and (qq == q or qq.endswith("::" + q))]
+                    if len(cands) == 1:
+                        return self.call(cands[0], args)
+                last = p.split("::")[-1]
+                if last[:1].isupper():
+                    return ("ctor", p, args)
+            raise NotConst(f"call {expr_text(e)}")
+        if k == "mcall":
+            recv = self.ev(e["recv"], env)
+            args = [self.ev(a, env) for a in e["args"]]
+            m = e["m"]
+            if m in ("wrapping_add", "saturating_add"):
+                return recv + args[0]
+            if m == "wrapping_sub":
+                return recv - args[0]
+            if m == "saturating_sub":
+                return max(recv - args[0], 0)
+            if m == "div_ceil":
+                return -(-recv // args[0])
+            if m in ("min", "max"):
+                return min(recv, args[0]) if m == "min" else max(recv, args[0])
+            if m == "contains" and isinstance(recv, range):
+                return args[0] in recv
+            if m in ("unwrap_or",):
+                return args[0] if recv is None else (recv[1] if isinstance(recv, tuple) and recv and recv[0] == "some" else recv)
+            raise NotConst(f"method {m}")
+        if k == "range":
+            lo = self.ev(e["lo"], env) if e.get("lo") else 0
+            hi = self.ev(e["hi"], env)
+            return range(lo, hi + (1 if e.get("closed") else 0))
+        if k == "macro" and e.get("name") in ("unreachable", "panic"):
+            raise NotConst("diverges")
+        if k == "try":
+            v = self.ev(e["e"], env)
+            if v is None:
+                raise _RsReturn(None)
+            return v[1] if isinstance(v, tuple) and v and v[0] == "some" else v
+        if k == "struct_lit":
+            d = {"__struct__": e["p"].split("::")[-1]}
+            for f in e["fields"]:
+                d[f["name"]] = self.ev(f["e"], env)
+            return d
+        if k == "field":
+            v = self.ev(e["e"], env)
+            if isinstance(v, dict):
+                return v[e["name"]]
+            if isinstance(v, (tuple, list)):
+                return v[int(e["name"])]
+            raise NotConst("field access")
+        if k == "assign" and e["l"].get("k") == "path":
+            env[e["l"]["p"]] = self.ev(e["r"], env)
+            return None
+        raise NotConst(f"expr {k}")
